@@ -16,7 +16,11 @@ import numpy as np
 from . import common
 from ECAgent.Core import Model, Agent, Component, System
 from ECAgent.Collectors import Collector, AgentCollector
-from ECAgent.Environments import GridWorld, SpaceWorld, PositionComponent
+import numpy as np
+from ECAgent.Environments import GridWorld, SpaceWorld, PositionComponent, discrete_grid_pos_to_id
+
+
+RASTER = np.arange(20, dtype=np.float64) * 1.5 + 10.0        # kept by the program, handed to every model
 
 
 class CompA(Component):
@@ -51,7 +55,12 @@ class Script(System):
             a = env.get_random_agent()
             if a is not None:
                 p = a[PositionComponent]
-                cells = env.get_moore_neighbours((int(p.x), int(p.y), 0), 1, False, tuple)
+                if m.systems.timestep % 2:
+                    cells = env.get_moore_neighbours((int(p.x), int(p.y), 0), 1, False, tuple)
+                else:
+                    # the generic entry point, its mode given as text that was put together at run time (a model parameter)
+                    mode = "".join(list(("moore", "neumann")[(m.systems.timestep // 2) % 2]))
+                    cells = env.get_neighbours((int(p.x), int(p.y), 0), 1, False, tuple, mode)
                 m.random.shuffle(cells)
                 if cells:
                     env.move_to(a, cells[0][0], cells[0][1])
@@ -68,6 +77,15 @@ class Script(System):
                 found = env.get_agents_at(p.x, p.y, leeway=2)
                 b = m.random.choice(found) if found else None
                 o["near"].append([a.id, "None" if b is None else b.id] + [x.id for x in found])
+        if "cells" in self.mix and m.kind in ("grid", "tgrid"):
+            # grazing: two random agents eat from the cell they stand on (the resource layer was built from a raster the program
+            # keeps and hands to every model it builds)
+            for a in env.shuffle()[:2]:
+                p = a[PositionComponent]
+                cid = int(discrete_grid_pos_to_id(int(p.x), int(p.y), env.width))
+                val = float(env.cells.loc[cid, "res"])
+                env.cells.loc[cid, "res"] = val - 1.0
+                o["near"].append([a.id, "ate", cid, int(round(val * 2))])
         if "churn" in self.mix:
             if m.random.random() < 0.4 and len(env) > 1:
                 a = env.get_random_agent()
@@ -135,6 +153,8 @@ class StochModel(Model):
         self.kind = kind
         if kind in ("grid", "tgrid"):
             self.set_environment(GridWorld(self, 5, 4, wrap_env=(kind == "tgrid")))
+            if "cells" in mix.split(","):
+                self.environment.add_cell_component("res", RASTER)
         elif kind in ("space", "tspace"):
             self.set_environment(SpaceWorld(self, 6.0, 4.0, wrap_env=(kind == "tspace")))
         for i in range(n):
@@ -287,7 +307,16 @@ def run_fresh(prog):
 
 
 def run_program(prog):
-    """One trace: the reference run (inline, no perturbation) followed by the runs of the program."""
+    """One trace: the reference run (inline, no perturbation) followed by the runs of the program.  A run that raises is
+    an event with that outcome (no specification step explains it)."""
+    try:
+        return _run_program(prog)
+    except Exception as e:  # noqa: BLE001
+        return [{"op": "run", "key": _key(prog), "copy": 0, "where": prog.get("where", "inline"),
+                 "out": "Unexpected:" + type(e).__name__, "steps": []}]
+
+
+def _run_program(prog):
     c = prog["config"]
     n_steps = max(1, sum(1 for s in prog["schedule"] if s[0] in ("A", "N") and s[1] == 1),
                   sum(1 for s in prog["schedule"] if s[0] in ("A", "N") and s[1] == 2))
@@ -316,7 +345,8 @@ SPATIAL = [{"kind": k, "n": n, "mix": mix}
            for k in ("tgrid", "tspace", "grid", "space")
            for n, mix in ((6, "near,move"), (5, "pick,near,move,churn"))]
 # a one-shot system that unregisters itself, and several systems of one priority whose order shows in the trajectory
-SETUPS = [{"kind": k, "n": 4, "mix": "setup,pick,shuffle,churn"} for k in ("plain", "grid", "tspace")]
+SETUPS = [{"kind": k, "n": 4, "mix": "setup,pick,shuffle,churn"} for k in ("plain", "grid", "tspace")] + \
+         [{"kind": k, "n": 5, "mix": "cells,move,near"} for k in ("grid", "tgrid")]
 HASHCFG = SPATIAL + SETUPS
 CONFIGS = CONFIGS + SPATIAL + SETUPS
 
